@@ -117,10 +117,9 @@ def build(repo, udp=False):
     u.assemble()
     common.common_rules(u)
     common.header_contracts(u, PROPS)
-    u.rule('R12:unreachable', r'_ => unreachable!\(\),',
-           '_ => { proof { let x = self.ver_type_tkl; assert((0x30 & x) >> 4 <= 3) by (bit_vector); } unreachable!() }', 1)
+    u.rule('R12:unreachable', r'_ => unreachable!\(\),', '_ => { unreachable!() }', 1)
     u.contract(('impl Header', 'set_token_length'), '        requires tkl < 16', props=['C01'])
-    u.body_start(('impl Header', 'set_token_length'), '        proof { assert(tkl < 16 ==> 0xF0 & tkl == 0) by (bit_vector); }')
+    common.header_bit_hints(u, 'impl Header', fns=('set_token_length', 'get_type'))
     if udp:
         u.rule('cfg:udp', r'#\[cfg\(not\(feature = "udp"\)\)\]\s*pub const MAX_SIZE: usize = [0-9_]+;', '', 1)
         u.rule('cfg:udp2', r'#\[cfg\(feature = "udp"\)\]', '', 1)
